@@ -39,15 +39,18 @@ Obs == /\ Ev.e = "obs"
 \* after the drain phase the retired block has been freed
 Other == /\ Ev.e \in {"reset", "end"} /\ UNCHANGED <<last, afterFail, afterOk, base>>
 Drained == /\ Ev.e = "drained" /\ Ev.live = 0 /\ UNCHANGED <<last, afterFail, afterOk, base>>
-\* nothing leaked: whenever the driver is back in the same logical state (same
-\* kind of round about to start, everything drained) the heap bytes in use are
-\* the same as the first time
+\* nothing leaked: every family runs on a thread of its own; once that thread has exited and everything has
+\* been drained, the heap bytes in use are what they were before it started.  (Judged there, not between
+\* rounds: a live thread may legitimately keep buffers -- request vectors that retain their capacity, a
+\* pre-allocated list node that a retry reuses -- and all of that is returned when the thread exits.)
 Baseline == /\ Ev.e = "baseline"
-            /\ IF Ev.op \in DOMAIN base THEN Ev.heap = base[Ev.op] /\ UNCHANGED base
-                                        ELSE base' = (Ev.op :> Ev.heap) @@ base
+            /\ base' = (Ev.op :> Ev.heap) @@ base
             /\ UNCHANGED <<last, afterFail, afterOk>>
+After == /\ Ev.e = "after"
+         /\ Ev.op \in DOMAIN base /\ Ev.heap = base[Ev.op]
+         /\ UNCHANGED <<last, afterFail, afterOk, base>>
 
-TNext == l <= Len(JTrace) /\ l' = l + 1 /\ (Fail \/ Ok \/ Obs \/ Other \/ Drained \/ Baseline)
+TNext == l <= Len(JTrace) /\ l' = l + 1 /\ (Fail \/ Ok \/ Obs \/ Other \/ Drained \/ Baseline \/ After)
 TSpec == TInit /\ [][TNext]_tvars
 TraceAccepted == /\ PrintT(<<"QFAULTS", TLCGet(1)>>)
                  /\ TLCGet("stats").diameter - 1 = Len(JTrace)
